@@ -3,7 +3,8 @@
    Model: Model/Consumer.v (afkak/consumer.py:290-1131).  Never weaken a statement here. *)
 From AV Require Import Base.Util Model.Consumer Proofs.ConsumerBase Proofs.ConsumerFrame Proofs.ConsumerC13
   Proofs.ConsumerStop Proofs.ConsumerStopOk Proofs.ConsumerC13Top Proofs.ConsumerInv Proofs.ConsumerShut Proofs.ConsumerRun
-  Proofs.ConsumerFuel Proofs.ConsumerShutFlags Proofs.ConsumerNotStarted.
+  Proofs.ConsumerFuel Proofs.ConsumerShutFlags Proofs.ConsumerNotStarted Proofs.ConsumerFuelEnoughStop
+  Proofs.ConsumerFuelEnough.
 Open Scope Z_scope.
 
 (* In EVERY state in which stop() can be called (not already inside stop(), not inside the auto-commit timer callback
@@ -170,6 +171,34 @@ Theorem C13_fuel_monotone_nested : forall f f' k, (f <= f')%nat ->
   forall s r s' o, run f k s = (r, s', o) -> fuel_ok o = true -> run f' k s = (r, s', o).
 Proof. exact run_mono. Qed.
 Print Assumptions C13_fuel_monotone_nested.
+
+(* SOME FUEL SUFFICES, for stop() and everything that runs inside it (the interpreter's fuel is the nesting depth of
+   re-entrant calls).  In EVERY state, stop() run with fuel at least |_commit_ds| + 6 never runs out of fuel (PF: the
+   outcomes held back until a surrounding shutdown() returns carry no out-of-fuel marker; between events the list is
+   empty).  With C13_fuel_monotone_nested this discharges the hypothesis fuel_ok of C13_quiescent_after_stop,
+   C13_stop_never_fails_start and C13_stop_clears_shutdown_partial, and fuel_ok of every EStop step. *)
+Theorem C13_stop_fuel_enough : forall fuel s r s' o,
+  run fuel KStop s = (r, s', o) -> (length (s_cds s) + 6 <= fuel)%nat -> PF s -> fuel_ok o = true /\ PF s'.
+Proof. exact stop_enough. Qed.
+Print Assumptions C13_stop_fuel_enough.
+Theorem C13_stop_step_fuel_enough : forall s, s_pend s = [] ->
+  exists fuel0, forall fuel, (fuel0 <= fuel)%nat -> fuel_ok (snd (step fuel s EStop)) = true.
+Proof. exact stop_step_some_fuel. Qed.
+Print Assumptions C13_stop_step_fuel_enough.
+(* ... for every nested execution while _stopping is set (bound Bs: the number of commit waiters + 3 for the loop over
+   them, a constant otherwise) ... *)
+Theorem C13_stopping_fuel_enough : forall fuel k s r s' o,
+  run fuel k s = (r, s', o) -> s_stopping s = true -> okk k -> (Bs k s <= fuel)%nat -> PF s -> fuel_ok o = true /\ PF s'.
+Proof. exact stopping_enough. Qed.
+Print Assumptions C13_stopping_fuel_enough.
+(* ... and for the commit side in EVERY state: the completion of shutdown() (_commit_and_stop, its success / failure
+   callbacks incl. the re-commit of 7687afc and the final stop()), a commit waiter firing, the delivery of a commit result
+   to all waiters.  Bound BC: linear in the number of commit waiters.  NOT covered (see DESIGN 10.x): the message loop
+   (KProcLoop / KFetchResp / KFireProc), hence the fetch-reply and processor-result events and whole runs. *)
+Theorem C13_commit_side_fuel_enough : forall fuel k s r s' o,
+  run fuel k s = (r, s', o) -> isC k -> (BC k s <= fuel)%nat -> PostC k s s' o.
+Proof. exact commit_side_enough. Qed.
+Print Assumptions C13_commit_side_fuel_enough.
 
 (* ---------------- non-vacuity: stop() with a commit in flight, a reply parked behind a pending processor ----------- *)
 Definition ex_cfg := mkCfg true 1 true 0 None 7.
